@@ -191,7 +191,12 @@ func (self *DbImpl) Batch(ctx MutateContext, fn func(ctx MutateContext) error) e
 
 		defer ctx.setTx(nil)
 
+		// bbolt may run the function more than once (when another call in the same batch fails). Actions
+		// registered by an abandoned run must not be executed by a later one
+		resetActions := ctx.saveActions()
+
 		return self.db.Batch(func(tx *bbolt.Tx) error {
+			resetActions()
 			ctx.setTx(tx)
 			if err := fn(ctx); err != nil {
 				return err
